@@ -64,6 +64,20 @@ CLAIMED["C15"] = ("(a) kind-set dataflow over sexp_equalp_bound and hash_one: th
     "sibling agreement by kind-set dataflow probes (tags reaching the semantic-compare returns vs. tags reaching the raw-byte hashing statements); call-graph SCC depth-bound verification",
     "3 C15")
 
+CLAIMED["C03"] = ("Agreement clauses between the compiler's cooperating parts: (a) every AST walker (free-vars, simplify, usedp, generator) visits "
+    "all sub-AST fields of each node type it dispatches on; (b) for every opcodes[] row the net change of `top` on the non-raising paths of "
+    "its VM case equals what the row promises the code generator (-(n) for void rows, 1-n otherwise); (c) every constant-opcode emission is "
+    "followed by exactly the operand words its VM case reads. Necessary conditions of correct compiled evaluation; R7RS semantic equivalence "
+    "as such is not decided.",
+    "sibling agreement: field-read sets per walker closure; path enumeration of the VM dispatch cases (top delta / operand reads) vs constant-evaluated opcode table vs emit call sequences",
+    "3 C03")
+CLAIMED["C09"] = ("Structural clauses on simplify.c: (a) simplify/usedp walker agreement; (b) kind-set dataflow: the literal replacing a folded "
+    "application is built only where the fold result cannot be an exception, and the fold runs through sexp_apply_no_err_handler; "
+    "(c) let-constant propagation is dominated by the not-in-set-variables test. Necessary conditions of 'simplification preserves meaning'; "
+    "result equality across builds and the 128-bit emulation are not decided.",
+    "walker field-set agreement; kind-set dataflow probe at the literal construction; edge-dominance of the guard over the substitution push",
+    "3 C09")
+
 # properties planned in DESIGN.md but whose checks are not built yet are listed
 # as not applicable *for now* with that reason, so the manifest never over-claims
 PENDING = {}
